@@ -11,6 +11,7 @@ import (
 	"path/filepath"
 	"sort"
 	"strings"
+	"sync"
 	"time"
 
 	"github.com/coredhcp/coredhcp/handler"
@@ -26,7 +27,13 @@ import (
 )
 
 func init() {
-	reg.Register(&reg.Check{ID: "C10", Level: "model_checking", Run: run, Replay: replay})
+	reg.Register(&reg.Check{ID: "C10", Level: "model_checking", Run: run, Replay: replay, Worker: func(a []string) int {
+		r := ev.New("C10", reg.Tier, "model_checking")
+		if len(a) == 2 && a[0] == "spelling" {
+			spellingWorker(r, a[1])
+		}
+		return reg.WorkerExit(r)
+	}})
 }
 
 // line is one entry of the line alphabet with its meaning per protocol.
@@ -483,6 +490,110 @@ func run(r *ev.Run) {
 	if !r.Quick() {
 		bindingRun(r)
 	}
+	spellingRuns(r)
+}
+
+// spellingRuns: the real autorefresh watcher with the lease file configured under different
+// but equivalent spellings of its path (one process each: the table and the watcher are
+// process-wide). A well-formed rewrite must be loaded whatever the spelling. The clean
+// spelling is the control: if even that one is not loaded within the budget, inotify does not
+// work here and nothing is concluded; otherwise a spelling whose update is never loaded (two
+// attempts of 15 s each, against milliseconds for the control) is a violation.
+var spellings = []string{"clean", "dot-segment", "double-slash", "dot-dot", "relative", "symlink-other-dir"}
+
+func spellingRuns(r *ev.Run) {
+	r.Rule("Binding runs with the real watcher, one process per spelling of the configured path {clean, dir/./f, dir//f, dir/sub/../f, ./f relative to the working directory, symlink into another directory}: a well-formed rewrite is loaded (control-calibrated: verdicts only when the clean spelling loads).")
+	got := map[string]string{}
+	var mu sync.Mutex
+	var wg sync.WaitGroup
+	for _, sp := range spellings {
+		sp := sp
+		wg.Add(1)
+		go func() {
+			defer wg.Done()
+			res := reg.Spawn(r, "C10", 3*time.Minute, "spelling", sp)
+			out := "died"
+			if i := strings.Index(res.Output, "@@SPELLING "); i >= 0 && !res.Hung {
+				out = strings.TrimSpace(strings.SplitN(res.Output[i+len("@@SPELLING "):], "\n", 2)[0])
+			}
+			mu.Lock()
+			got[sp] = out
+			mu.Unlock()
+		}()
+	}
+	wg.Wait()
+	for _, sp := range spellings {
+		r.Eval("binding/spelling/" + sp + "/" + got[sp])
+	}
+	r.Set("binding_spellings", fmt.Sprint(got))
+	if got["clean"] != "loaded" {
+		r.Set("binding_spellings_verdict", "inconclusive: the control (clean path) was not loaded: "+got["clean"])
+		return
+	}
+	for _, sp := range spellings {
+		if got[sp] == "never-loaded" {
+			r.Violate("C10/binding/update-never-loaded/"+sp, fmt.Sprintf("lease file configured as a %s path with autorefresh: a well-formed rewrite was not loaded within 2 x 15 s although the same rewrite under the clean spelling was loaded at once", sp), map[string]interface{}{"spelling": sp})
+		}
+	}
+}
+
+func spellingWorker(r *ev.Run, sp string) {
+	dir := srv.Scratch()
+	real := filepath.Join(dir, "leases.txt")
+	path := real
+	switch sp {
+	case "dot-segment":
+		path = dir + "/./leases.txt"
+	case "double-slash":
+		path = dir + "//leases.txt"
+	case "dot-dot":
+		os.MkdirAll(filepath.Join(dir, "sub"), 0o755)
+		path = dir + "/sub/../leases.txt"
+	case "relative":
+		if err := os.Chdir(dir); err != nil {
+			fmt.Println("@@SPELLING setup-failed: " + err.Error())
+			return
+		}
+		path = "./leases.txt"
+	case "symlink-other-dir":
+		other := filepath.Join(dir, "elsewhere")
+		os.MkdirAll(other, 0o755)
+		real = filepath.Join(other, "target.txt")
+		path = filepath.Join(dir, "leases-link.txt")
+		os.Symlink(real, path)
+	}
+	os.WriteFile(real, []byte(contents[4]["good1"]), 0o644)
+	h4, _, err := setup(4, path, "autorefresh")
+	if err != nil {
+		fmt.Println("@@SPELLING setup-failed: " + err.Error())
+		return
+	}
+	served := func(want map[string]string) bool {
+		for _, m := range probeMACs {
+			ip, _, _ := lookup4(h4, m)
+			if ip != want[m] {
+				return false
+			}
+		}
+		return true
+	}
+	if !served(goodTables[4]["good1"]) {
+		fmt.Println("@@SPELLING initial-table-wrong")
+		return
+	}
+	for attempt := 0; attempt < 2; attempt++ {
+		// in-place rewrite (truncate + write), then an append-free touch of the content again
+		os.WriteFile(real, []byte(contents[4]["good2"]), 0o644)
+		dl := time.Now().Add(15 * time.Second)
+		for time.Now().Before(dl) {
+			if served(goodTables[4]["good2"]) {
+				fmt.Println("@@SPELLING loaded")
+				return
+			}
+			time.Sleep(10 * time.Millisecond)
+		}
+	}
+	fmt.Println("@@SPELLING never-loaded")
 }
 
 // bindingRun: the real autorefresh watcher on a tmpfs file through good -> bad -> good'.
@@ -552,6 +663,14 @@ func replay(r *ev.Run, raw json.RawMessage) {
 		for _, op := range c.Hist {
 			fmt.Printf("  %s %s -> %s ; %s\n", op.Kind, op.Content, s.Apply(op, true), s.Key())
 		}
+	case probe["spelling"] != nil:
+		// re-runs the control and the named spelling
+		var c struct{ Spelling string }
+		json.Unmarshal(raw, &c)
+		old := spellings
+		spellings = []string{"clean", c.Spelling}
+		spellingRuns(r)
+		spellings = old
 	case probe["setup_order"] != nil:
 		var c DualCase
 		json.Unmarshal(raw, &c)
